@@ -1149,6 +1149,14 @@ STATE_SWITCH:
                     if (data[pos] == CR) {
                         // We have a CR byte.
 
+                        // A CR set aside at the end of the previous input buffer is followed
+                        // by this CR, not by a LF, so it was not part of a line ending: it
+                        // is part data and must be released before we deal with this one.
+                        if (parser->cr_aside) {
+                            parser->handle_data(parser, (unsigned char *) &"\r", 1, /* not a line */ 0);
+                            parser->cr_aside = 0;
+                        }
+
                         // Is this CR the last byte in the input buffer?
                         if (pos + 1 == len) {
                             // We have CR as the last byte in input. We are going to process
